@@ -125,6 +125,7 @@ class Filters:
                 "format_docstring": self.format_docstring,
                 "constant_name": self.constant_name,
                 "constant_value": self.constant_value,
+                "string_literal": self.string_literal,
                 "default_imports": self.default_imports,
                 "format_metadata": self.format_metadata,
                 "type_name": self.type_name,
@@ -916,11 +917,25 @@ class Filters:
 
         return name
 
+    @classmethod
+    def string_literal(cls, value: str) -> str:
+        """Return a double-quoted python literal for the given string.
+
+        Names, namespaces, locations come from the source documents, they
+        can include quotes, backslashes or control characters.
+        """
+        escaped = value.replace("\\", "\\\\").replace('"', '\\"')
+        escaped = "".join(
+            char if char.isprintable() else char.encode("unicode_escape").decode()
+            for char in escaped
+        )
+        return f'"{escaped}"'
+
     def constant_value(self, attr: Attr) -> str:
         """Return the attr default value or type as constant value."""
         attr_type = attr.types[0]
         if attr_type.native:
-            return f'"{attr.default}"'
+            return self.string_literal(str(attr.default))
 
         if attr_type.alias:
             return self.class_name(attr_type.alias)
